@@ -117,7 +117,7 @@ Definition set_join (j : Z) (ml : option Q) (w : pdfw) : list ptok * pdfw :=
 Definition norm_phase (ph : Q) (ds : list Q) : Q :=
   if Qle_bool 0 ph then ph
   else let t := qsum ds in
-       if Qle_bool t 0 then ph   (* the Go loop would not terminate; never generated *)
+       if Qle_bool t 0 then 0    (* no dashes: phase reset (before the fix: the Go loop did not terminate) *)
        else Qred (ph + t * inject_Z (- qfloor (ph / t))).
 Definition set_dashes (ph : Q) (ds : list Q) (w : pdfw) : list ptok * pdfw :=
   let ds := if Nat.odd (length ds) then ds ++ ds else ds in
